@@ -29,7 +29,19 @@ for d in sorted(os.listdir(V + "/seeded")):
     now = "caught" if (m["ran"].get("caught_by_quick") or m["ran"].get("caught_by_quick_after_strengthening")) else "being strengthened"
     sd.append("| %s | %s | %s | %s |" % (d, m["breaks_property"], first, now))
 seeds = "\n".join(sd)
-for name, body in (("FIXES", fixes), ("OPEN", opn), ("EVIDENCE", evt), ("SEEDS", seeds)):
+rows = json.load(open(V + "/docs/status_rows.json"))
+st = []
+for pid in sorted(rows):
+    r = rows[pid]
+    try:
+        e = json.load(open(V + "/evidence/%s.json" % pid)); c = e["coverage"]
+        head = "**%s** — %s theorems; %s cases in the last quick run" % (pid, c.get("obligations"), c.get("evaluations"))
+    except Exception:
+        head = "**%s**" % pid
+    st.append(head + "\n\n* *proved for all inputs:* " + r["proved"] + "\n* *partial / observed only / not covered:* " + r["partial"]
+              + "\n* *tie to /repo:* " + r["tie"] + ("\n* *planned but not built:* " + r["not_done"] if r.get("not_done") else "") + "\n")
+status = "\n".join(st)
+for name, body in (("FIXES", fixes), ("OPEN", opn), ("EVIDENCE", evt), ("SEEDS", seeds), ("STATUS", status), ("NOTDONE", open(V + "/docs/notdone_global.md").read().rstrip())):
     pat = re.compile(r"(<!-- BEGIN %s -->).*?(<!-- END %s -->)" % (name, name), re.S)
     assert pat.search(s), name
     s = pat.sub(lambda m: m.group(1) + "\n" + body + "\n" + m.group(2), s)
